@@ -226,7 +226,7 @@ func (e *Evaluator) evalExpr(expr Expr) (*Cell, error) {
 	e.evalDepth++
 	defer func() { e.evalDepth-- }()
 	if e.evalDepth > evalDepthLimit {
-		return nil, e.error(Token{}, "evaluation nested too deeply")
+		return nil, e.error(expr.Token(), "evaluation nested too deeply")
 	}
 	switch exp := expr.(type) {
 	case *ExprLiteral:
@@ -350,7 +350,7 @@ func (e *Evaluator) evalExpr(expr Expr) (*Cell, error) {
 			cell := NewCell(Value{Tag: ValueUnknown})
 			newCell, err := copyValue(value, cell)
 			if err != nil {
-				return nil, e.error(expr.Token(), err.Error())
+				return nil, e.error(kv.Value.Token(), err.Error())
 			}
 
 			key := kv.Key
@@ -965,7 +965,7 @@ func (e *Evaluator) evalStatement(stmt Statement) error {
 	e.evalDepth++
 	defer func() { e.evalDepth-- }()
 	if e.evalDepth > evalDepthLimit {
-		return e.error(Token{}, "evaluation nested too deeply")
+		return e.error(stmt.Token(), "evaluation nested too deeply")
 	}
 	switch st := stmt.(type) {
 	case *StatementBlock:
@@ -1095,7 +1095,7 @@ func (e *Evaluator) evalStatement(stmt Statement) error {
 			indexIdent := e.lexer.GetString(&st.IndexIdent.token)
 			indexLocal, err = e.getVariable(indexIdent)
 			if err != nil {
-				return e.error(st.Token(), err.Error())
+				return e.error(st.IndexIdent.Token(), err.Error())
 			}
 		}
 
